@@ -44,7 +44,7 @@ SPEC = {
         "C11_skeleton_OrderedMap_ForEachReverse", "C11_skeleton_OrderedMap_Head", "C11_skeleton_OrderedMap_Tail",
         "C11_skeleton_OrderedMap_Size", "C11_skeleton_OrderedMap_IsEmpty", "C11_skeleton_OrderedMap_Clone",
         "C11_clone_reentrant_deadlock_witness", "C11_source_applymutex_deadlock_witness",
-        "C11_dict_shrink_transparent", "C11_codec_widths",
+        "C11_dict_shrink_transparent", "C11_codec_widths", "C11_iteration_step", "C11_alias_deleteall",
         "C11_skeleton_ShrinkingMap_delete", "C11_skeleton_ShrinkingMap_shouldShrink", "C11_skeleton_ShrinkingMap_shrink",
         "C11_skeleton_ShrinkingMap_Delete", "C11_skeleton_ShrinkingMap_Set", "C11_skeleton_ShrinkingMap_Get",
         "C11_skeleton_ShrinkingMap_Has", "C11_skeleton_ShrinkingMap_Compute", "C11_skeleton_ShrinkingMap_Clear",
